@@ -234,8 +234,8 @@ func (p *c16) pipeline(rec *core.Recorder, r *core.Rand, viaLoader bool) {
 		dir = d
 		defer os.RemoveAll(dir)
 		for _, n := range append(append([]string{}, twins...), sortedKeys(srcs)...) {
-			// the loader does not create sub-directories for names with a slash
-			if i := strings.LastIndex(n, "/"); i >= 0 {
+			// sub-directories for names with a slash: there already in one case of two, left to the loader in the other
+			if i := strings.LastIndex(n, "/"); i >= 0 && core.Hash64(canonSrcs(srcs), "predirs")%2 == 0 {
 				os.MkdirAll(filepath.Join(dir, n[:i]), 0o755)
 			}
 		}
